@@ -119,12 +119,14 @@ PROPS = {
         ]
 },
     "C08": {
+        "translate": ["pipeline.py"],
         "lean_modules": ["InTotoModel.Props.C08", "InTotoModel.Props.NonVacuity"],
         "claim": "An inspectionStarted event of a layout occurs in the trace only if stages 1-9 of that layout passed; if any of them fails the result is not ok and the trace has no event of that layout; success requires every inspection to have been started and exited 0, and the rule engine to accept every inspection against the extended link table. Lean theorems over the event trace (induction on delegation depth); sentinel-based scenarios on the real code.",
         "level_note": "Trusted: Lean kernel; process spawning, CWD handling, what record_artifacts('.') sees and the link file written afterwards are runtime behaviour: observed, not modelled.",
-        "technique": "Lean 4 theorems about an executable model + model/implementation correspondence check (differential run with property oracle)",
+        "technique": "Lean 4 theorems about an executable model + structure of the pipeline translated from the Rust source on every run + model/implementation correspondence check (differential run with property oracle)",
         "rule": "cases = end-to-end scenarios: a valid layout + link directory (real keys of every scheme, real signatures, optional sub-layouts and inspections) materialised in a scratch directory, usually with one injected fault whose effect is known by construction; ops = verify(scenario with constructed signature validity, observed inspection outcomes) run through the real in_toto_verify with a pinned clock; the model is evaluated under two opposite hash-map iteration orders; distinct = distinct scenario; all are non-trivial (they get past argument parsing into stage 1)",
         "trusted_base": [
+                "translate/pipeline.py: the stage calls of in_toto_verify and the calls inside verify_sublayouts are read from src/verifylib.rs on every run (regex + brace matching over the function bodies); the theorem c08_source_* states they are the model's",
                 "ring signature verification = parameter env.valid; clock = env.now (pinned through the verif-hooks clock override); running an inspection = env.run (exit status and recorded link are observed from the real run and handed to the model)",
                 "glob() over the link directory is modelled as 'files named <step>.<8 chars>.link, sorted' for glob-safe step names",
                 "the rule engine inside the pipeline is Model/Rules.lean (see C03)"
@@ -174,12 +176,14 @@ PROPS = {
         "assumptions": COMMON_ASSUME,
     },
     "C15": {
+        "translate": ["pipeline.py"],
         "lean_modules": ["InTotoModel.Props.C15", "InTotoModel.Props.NonVacuity"],
         "claim": "verify = ok implies every sub-layout that counted as evidence is listed under an authorized key of the step, carries that key's valid signature, and has itself passed the complete verify routine with that single key, the step's name and the sub-directory <step>.<prefix8>; plus the summary theorem (requested name; first step's materials; last step's products and command/byproducts; empty link for a step-less layout). Lean theorems; delegation scenarios (depth 1-2) with every inner failure mode on the real code.",
         "level_note": "Trusted: Lean kernel; recursion depth is fuel in the model (running out is an error, never a success).",
-        "technique": "Lean 4 theorems about an executable model + model/implementation correspondence check (differential run with property oracle)",
+        "technique": "Lean 4 theorems about an executable model + structure of the pipeline translated from the Rust source on every run + model/implementation correspondence check (differential run with property oracle)",
         "rule": "cases = end-to-end scenarios: a valid layout + link directory (real keys of every scheme, real signatures, optional sub-layouts and inspections) materialised in a scratch directory, usually with one injected fault whose effect is known by construction; ops = verify(scenario with constructed signature validity, observed inspection outcomes) run through the real in_toto_verify with a pinned clock; the model is evaluated under two opposite hash-map iteration orders; distinct = distinct scenario; all are non-trivial (they get past argument parsing into stage 1)",
         "trusted_base": [
+                "translate/pipeline.py: the stage calls of in_toto_verify and the calls inside verify_sublayouts are read from src/verifylib.rs on every run (regex + brace matching over the function bodies); the theorem c15_source_* states they are the model's",
                 "ring signature verification = parameter env.valid; clock = env.now (pinned through the verif-hooks clock override); running an inspection = env.run (exit status and recorded link are observed from the real run and handed to the model)",
                 "glob() over the link directory is modelled as 'files named <step>.<8 chars>.link, sorted' for glob-safe step names",
                 "the rule engine inside the pipeline is Model/Rules.lean (see C03)"
